@@ -127,12 +127,8 @@ func vrtTarget(h *Header, id int, now Timestamp, p Point) int {
 // stored in its target archive, the last supplied wins within a slot, points too old for
 // every candidate change nothing and archives finer than every target are untouched.
 func VerifC03_Batch() {
-	var h *Header
-	if vrt.Tier() == 1 {
-		h = vrtChooseHeaderSmall(Sum, 0.5)
-	} else {
-		h = vrtChooseHeaderFrom([]string{"1s:2s", "5s:15s", "1s:2s,2s:6s"}, Sum, 0.5)
-	}
+	// thorough tier: the same layouts with batches of up to 3 points
+	h := vrtChooseHeaderFrom([]string{"1s:2s", "5s:15s", "1s:2s,2s:6s"}, Sum, 0.5)
 	vrtC03Batch(h, 1+vrt.Choose("batch", vrtMaxBatch()))
 }
 
